@@ -197,6 +197,115 @@ Proof.
   induction l as [|c l IH]; intros xs F; inversion F; subst; constructor; auto.
 Qed.
 
+(* ---- merge_partition_list: the left fold of merge_partitions, with any sufficient fuel ---- *)
+Lemma merge_loop_S f p1 p2 i a b j c d res :
+  merge_loop (S f) p1 p2 i a b j c d res =
+    if negb ((b <=? MAXC) || (d <=? MAXC)) then Some res else
+    if b <? c then let '(x, y) := pget p1 i in merge_loop f p1 p2 (S i) x y j c d (ppush res a b)
+    else if d <? a then let '(x, y) := pget p2 j in merge_loop f p1 p2 i a b (S j) x y (ppush res c d)
+    else if c <? a then merge_loop f p1 p2 i a b j a d (ppush res c (a - 1))
+    else if a <? c then merge_loop f p1 p2 i c b j c d (ppush res a (c - 1))
+    else if b <? d then let '(x, y) := pget p1 i in merge_loop f p1 p2 (S i) x y j (b + 1) d (ppush res a b)
+    else if d <? b then let '(x, y) := pget p2 j in merge_loop f p1 p2 i (d + 1) b (S j) x y (ppush res c d)
+    else let '(x, y) := pget p1 i in let '(x', y') := pget p2 j in
+         merge_loop f p1 p2 (S i) x y (S j) x' y' (ppush res a b).
+Proof. reflexivity. Qed.
+Lemma merge_loop_more : forall f p1 p2 i a b j c d res r,
+  merge_loop f p1 p2 i a b j c d res = Some r -> merge_loop (S f) p1 p2 i a b j c d res = Some r.
+Proof.
+  induction f as [|f IH]; intros p1 p2 i a b j c d res r H; [discriminate|].
+  rewrite merge_loop_S in H. rewrite (merge_loop_S (S f)).
+  destruct (negb ((b <=? MAXC) || (d <=? MAXC))); [exact H|].
+  destruct (b <? c); [destruct (pget p1 i); apply IH; exact H|].
+  destruct (d <? a); [destruct (pget p2 j); apply IH; exact H|].
+  destruct (c <? a); [apply IH; exact H|].
+  destruct (a <? c); [apply IH; exact H|].
+  destruct (b <? d); [destruct (pget p1 i); apply IH; exact H|].
+  destruct (d <? b); [destruct (pget p2 j); apply IH; exact H|].
+  destruct (pget p1 i); destruct (pget p2 j); apply IH; exact H.
+Qed.
+Lemma merge_loop_ge f p1 p2 i a b j c d res r : merge_loop f p1 p2 i a b j c d res = Some r ->
+  forall f', (f <= f')%nat -> merge_loop f' p1 p2 i a b j c d res = Some r.
+Proof.
+  intros H f' Hle. induction Hle as [|f' Hle IH]; [exact H|]. apply merge_loop_more. exact IH.
+Qed.
+
+(* merge_partitions returns the model's merge for every fuel that is at least the proved-sufficient
+   bound merge_fuel *)
+Lemma g_merge_fuel fuel p1 p2 : gwf p1 -> gwf p2 -> (merge_fuel (convp p1) (convp p2) <= fuel)%nat ->
+  option_map convp (M_fn_merge_partitions fuel p1 p2) = Some (pmerge (convp p1) (convp p2)).
+Proof.
+  intros W1 W2 Hf. pose proof (gwf_bounded _ W1) as B1. pose proof (gwf_bounded _ W2) as B2.
+  pose proof (merge_fuel_sufficient _ _ W1 W2) as Hm. unfold pmerge_opt in Hm.
+  unfold M_fn_merge_partitions, fn_merge_partitions.
+  rewrite !link_next_interval. unfold bind at 1 2.
+  change M_CharPartition_new with (Some CharPartition_new). unfold bind at 1.
+  pose proof (pget_bounded p1 0 B1) as [G1a G1b]. pose proof (pget_bounded p2 0 B2) as [G2a G2b].
+  destruct (pget (convp p1) 0) as [a b] eqn:E1. destruct (pget (convp p2) 0) as [c d] eqn:E2. cbn [fst snd] in *.
+  pose proof (merge_loop_ge _ _ _ _ _ _ _ _ _ _ _ Hm fuel Hf) as Hm'.
+  change pnew with (convp CharPartition_new) in Hm'.
+  rewrite <- (link_merge_loop fuel p1 p2 B1 B2 CharPartition_new 1%nat a b 1%nat c d) in Hm' by assumption.
+  unfold bind.
+  destruct (fn_merge_partitions_loop1 fuel p1 p2 (1%nat, a, b) (1%nat, c, d) CharPartition_new) as [[q|[[t1 t2] q]]|];
+    cbn [merge_res] in Hm'; try discriminate; exact Hm'.
+Qed.
+
+(* the fuel is at least merge_fuel at every step of the fold *)
+Fixpoint list_fuel_ok (fuel : nat) (l : list CharPartition) (acc : part) : Prop :=
+  match l with
+  | [] => True
+  | p :: t => (merge_fuel acc (convp p) <= fuel)%nat /\ list_fuel_ok fuel t (pmerge acc (convp p))
+  end.
+
+Definition list_res (r : option (loopres CharPartition CharPartition)) : option part :=
+  match r with Some (LoopDone q) => Some (convp q) | Some (LoopReturn q) => Some (convp q) | None => None end.
+
+Lemma g_merge_list_loop fuel : forall l acc, gwf acc -> Forall gwf l -> list_fuel_ok fuel l (convp acc) ->
+  list_res (fn_merge_partition_list_loop1 fuel l acc) = Some (fold_left pmerge (map convp l) (convp acc)).
+Proof.
+  induction l as [|p l IH]; intros acc Hacc Hl Hok; [reflexivity|].
+  inversion Hl as [|? ? Hp Hl']; subst. destruct Hok as (Hf & Hrest).
+  cbn [fn_merge_partition_list_loop1 map fold_left].
+  pose proof (g_merge_fuel fuel acc p Hacc Hp Hf) as Hm.
+  destruct (M_fn_merge_partitions fuel acc p) as [q|]; [|discriminate Hm].
+  cbn [option_map] in Hm. injection Hm as Hm. cbn [bind]. rewrite <- Hm. apply IH.
+  - unfold gwf. rewrite Hm. apply merge_wf; assumption.
+  - exact Hl'.
+  - rewrite Hm. exact Hrest.
+Qed.
+
+(* C12 (list form): merge_partition_list is the model's fold pmerge_list, hence (MergeProofs) the
+   coarsest common refinement of the whole list, independent of the order of the list *)
+Lemma g_merge_partition_list fuel l : Forall gwf l -> list_fuel_ok fuel l pnew ->
+  option_map convp (M_fn_merge_partition_list fuel l) = Some (pmerge_list (map convp l)).
+Proof.
+  intros Hl Hok. unfold M_fn_merge_partition_list, fn_merge_partition_list, pmerge_list.
+  change M_CharPartition_new with (Some CharPartition_new). cbn [bind].
+  pose proof (g_merge_list_loop fuel l CharPartition_new pnew_wf Hl Hok) as H.
+  change (convp CharPartition_new) with pnew in H.
+  destruct (fn_merge_partition_list_loop1 fuel l CharPartition_new) as [[q|q]|]; cbn [list_res] in H; try discriminate;
+    cbn [bind option_map]; exact H.
+Qed.
+
+Lemma g_merge_partition_list_wf fuel l q : Forall gwf l -> list_fuel_ok fuel l pnew ->
+  M_fn_merge_partition_list fuel l = Some q -> gwf q.
+Proof.
+  intros Hl Hok Hq. pose proof (g_merge_partition_list fuel l Hl Hok) as H. rewrite Hq in H. cbn [option_map] in H.
+  injection H as H. unfold gwf. rewrite H. apply merge_list_wf. rewrite Forall_map. exact Hl.
+Qed.
+
+Lemma list_fuel_ok_more fuel fuel' : (fuel <= fuel')%nat -> forall l acc, list_fuel_ok fuel l acc -> list_fuel_ok fuel' l acc.
+Proof.
+  intros Hle. induction l as [|x l IH]; intros acc H; [exact I|].
+  destruct H as (Hf & Hr). split; [lia|]. apply IH. exact Hr.
+Qed.
+Lemma g_merge_list_fuel_exists : forall l acc, exists fuel, list_fuel_ok fuel l acc.
+Proof.
+  induction l as [|x l IH]; intros acc; [exists 0%nat; exact I|].
+  destruct (IH (pmerge acc (convp x))) as [f Hf].
+  exists (Nat.max f (merge_fuel acc (convp x))). split; [lia|]. apply (list_fuel_ok_more f); [lia|exact Hf].
+Qed.
+
 Example g_example :
   let p := CharPartition_mk [CharSet_mk 10 20; CharSet_mk 30 40] 0 in
   gwf p /\
